@@ -16,6 +16,7 @@ where the code tests `isnan`. No Mathlib.
 -/
 import HydroVerif.Num
 import HydroVerif.Model.C04
+import HydroVerif.Generated.CvmTable
 namespace HydroVerif.C10
 open HydroVerif.C04 (sumL absG mean ssd pearson)
 
@@ -289,6 +290,24 @@ def closestIdx (n : Nat) : List Nat → Option Nat
     some (go 0 (d s) 1 rest)
 
 end interp
+
+section cvmp
+variable {α : Type} [Add α] [Sub α] [Mul α] [Div α] [LT α] [DecidableLT α] [LE α] [DecidableLE α] [NatCast α]
+
+/-- a number of the shipped table: `mantissa / 10^scale` (Generated/CvmTable.lean, regenerated from the archive) -/
+def ofMant (m : Nat) : α := (m : α) / ((10 ^ Gen.scale : Nat) : α)
+
+/-- the p-value of `cramer_von_mises_test`: column of the closest tabulated sample size, `np.interp` of the
+statistic over `CVM_QQ` -/
+def cvmPvalue (nsample : Nat) (stat : α) : Option α :=
+  match closestIdx nsample Gen.sizes with
+  | none => none
+  | some j =>
+    match Gen.columns[j]? with
+    | none => none
+    | some col => interp stat (Gen.qq.map ofMant) (col.map ofMant)
+
+end cvmp
 
 section adp
 variable {α : Type} [Add α] [Sub α] [Mul α] [Div α] [Neg α] [LT α] [DecidableLT α] [LE α] [DecidableLE α]
